@@ -67,13 +67,14 @@ K_HAS_PTR = {
 }
 K_FIND = {
     "vk_may_be_stack_rule": H("C", "PtraceDumper::may_be_stack"),
+    "vk_mmpermission_bits": H("C", "procfs_core MMPermissions::{bits, contains, intersects, |} (pins the Verus stand-in)"),
     "vk_find_mapping_2": H("B", "PtraceDumper::find_mapping", "exactly 2 symbolic mappings"),
     "vk_find_mapping_no_bias_2": H("B", "PtraceDumper::find_mapping_no_bias", "exactly 2 symbolic mappings"),
 }
 K_FILTERS = {
     "vk_is_interesting_rule": H("C", "MappingInfo::is_interesting"),
     "vk_contains_address_rule": H("C", "MappingInfo::contains_address"),
-    "vk_mmpermission_bits": H("C", "procfs_core MMPermissions::{bits, contains} (pins the Verus stand-in)"),
+    "vk_mmpermission_bits": H("C", "procfs_core MMPermissions::{bits, contains, intersects, |} (pins the Verus stand-in)"),
     "vk_is_contained_in_n0": H("B", "MappingInfo::is_contained_in", "empty user list"),
     "vk_is_contained_in_n1": H("B", "MappingInfo::is_contained_in", "1 symbolic user mapping"),
     "vk_is_contained_in_n2": H("B", "MappingInfo::is_contained_in", "2 symbolic user mappings"),
@@ -141,6 +142,7 @@ TWINS_STACK = {
     "get_stack_info": ["native:ptrace_dumper::c02_get_stack_info_top_of_address_space"],
     "app_memory_write": ["kani:vk_app_memory_two_regions"],
     "find_mapping": ["kani:vk_find_mapping_2"],
+    "may_be_stack": ["kani:vk_may_be_stack_rule"],
     "find_mapping_no_bias": ["kani:vk_find_mapping_no_bias_2"],
 }
 TWINS_DIR = {
@@ -219,14 +221,14 @@ PLAN["C06"] = {
                    "limit with one, and contains the stack pointer whenever the stack pointer lies in a readable stack-like mapping; "
                    "which threads are limited is a bounded Kani obligation on thread_list_stream::write (thorough tier)",
     "verus": [dict(STACK, functions=["get_stack_info", "fill_thread_stack", "contains_address", "end_address"], tags=["C06"]),
-              {"unit": "find_mapping", "functions": ["find_mapping"], "tags": ["C06"], "tiers": Q}],
+              {"unit": "find_mapping", "functions": ["find_mapping", "may_be_stack"], "tags": ["C06"], "tiers": Q}],
     "kani": [{"tiers": Q, "jobs": 4, "timeout": 900, "harnesses": K_FIND},
              {"tiers": T, "jobs": 3, "timeout": 3600, "mem_gb": 24, "harnesses": dict(K_TLS_CAP, **K_TLS)}],
     "native": [N_TLS],
     "native_files": [N_C06_LIVE],
     "twins": TWINS_STACK,
     "trusted": ["copy_from_process satisfies copy_ok (C17 decides it for the ptrace strategy; assumed for process_vm_readv and /proc/pid/mem)",
-                "find_mapping's contract is assumed in the unit `stack` and proved, for lists of any length, in the unit `find_mapping` relative to an assumed contract of core::slice::Iter::find (first match); may_be_stack's contract is assumed in Verus (bitflags operator) and proved complete by Kani"],
+                "find_mapping's contract is assumed in the unit `stack` and proved, for lists of any length, in the unit `find_mapping` relative to an assumed contract of core::slice::Iter::find (first match); may_be_stack likewise (assumed in `stack`, proved in `find_mapping` against a stand-in of the bitflags type that Kani pins on the real type)"],
     "samples": ["get_stack_info ensures: is_first(k, page(sp)) && stack_like(maps[k]) ==> Ok && v == page(sp) && v+len == end(maps[k])",
                 "fill_thread_stack ensures: sp in a readable stack-like mapping && included ==> start <= sp < start+len  [C06]"],
 }
@@ -478,7 +480,7 @@ PLAN["C02"] = {
               {"unit": "dir_section", "functions": ["new", "dump_dir_entry", "write_to_file"], "tags": ["C02"], "tiers": Q},
               {"unit": "app_memory", "functions": ["app_memory_write"], "tags": ["C02"], "tiers": Q},
               {"unit": "maps_filter", "functions": ["is_interesting", "is_contained_in"], "tags": ["C02"], "tiers": Q},
-              {"unit": "find_mapping", "functions": ["find_mapping", "find_mapping_no_bias"], "tags": ["C02"], "tiers": Q},
+              {"unit": "find_mapping", "functions": ["find_mapping", "find_mapping_no_bias", "may_be_stack"], "tags": ["C02"], "tiers": Q},
               {"unit": "mem_writer", "functions": None, "tags": ["C02"], "tiers": Q}],
     "kani": [{"tiers": Q, "jobs": 8, "timeout": 1200, "harnesses": dict(K_HAS_PTR, **dict(K_FIND, **{"vk_safe_to_open_table": H("B", "MappingInfo::is_mapped_file_safe_to_open", "5 concrete names")}))}],
     "native": [N_PD_TOTAL,
